@@ -464,16 +464,34 @@ def add_mac_command(c, res):
 def sticky(c, res):
     var = variants_of(c.prog, 'maccommands::UplinkMacCommand')
     inv = {v: k for k, v in var.items()}
-    cb = c.bf('lorawan_device::mac::uplink::Uplink::clear_mac_commands::{closure#0}')
+    # the selection is a switch on the discriminant of an UplinkMacCommand: in a filter closure (variants that return true) or
+    # in clear_mac_commands itself (variants from which the copy into the new vector is reached before the next command)
+    FN = 'lorawan_device::mac::uplink::Uplink::clear_mac_commands'
+    cands = [FN] + sorted(p for p in c.prog.by_short if p.startswith(FN + '::{closure'))
+    found = []
+    for p in cands:
+        cbf = c.bf(p)
+        for b_ in cbf.body.blocks:
+            if b_.cleanup or b_.idx not in cbf.cfg.reach or b_.term.k != 'switch' or b_.term.discr.place is None:
+                continue
+            rv_ = cbf.single_rvalue(b_.term.discr.place.local) if b_.term.discr.place.is_local() else None
+            if rv_ is not None and rv_.k == 'discr' and flow.strip_generics(rv_.place.ty or '').lstrip('&').strip().endswith('maccommands::UplinkMacCommand') and len(b_.term.targets) >= 2:
+                found.append((cbf, b_))
+    if len(found) > 1:
+        # keep the switch that decides: its edges differ in whether the copy is reached
+        def decides(cbf, b_):
+            cps = [bb_ for bb_, t_ in cbf.calls() if callee_name(t_).endswith(('::push', '::extend_from_slice'))]
+            outs = {tgt for _, tgt in b_.term.targets} | {b_.term.otherwise}
+            r_ = {any(cbf.cfg.can_reach(o_, x, skip_nodes={b_.idx}) for x in cps) for o_ in outs}
+            return len(r_) == 2
+        found = [f for f in found if '{closure' in f[0].body.path or decides(*f)]
+    if len(found) != 1:
+        raise CheckError('sticky selection: expected one switch on the command kind, found %d' % len(found))
+    cb, swb = found[0]
     body = cb.body
+    sw = [swb]
+    t = swb.term
     kept = set()
-    sw = [b for b in body.blocks if b.term.k == 'switch']
-    if len(sw) != 1:
-        raise CheckError('sticky filter closure: unexpected shape')
-    t = sw[0].term
-    rv = cb.single_rvalue(t.discr.place.local)
-    if rv is None or rv.k != 'discr':
-        raise CheckError('sticky filter closure: not a switch on the command discriminant')
 
     def ret_const(bb):
         seen = set()
@@ -487,11 +505,39 @@ def sticky(c, res):
             else:
                 break
         return None
+    copy_bbs = [bb_ for bb_, t_ in cb.calls() if callee_name(t_).endswith(('::push', '::extend_from_slice'))]
+
+    def selected(tgt):
+        if '{closure' in body.path:
+            return ret_const(tgt) == 1
+        # follow the straight-line continuation of this edge, resolving switches on flags it has just set (`matches!` lowers to
+        # a flag assignment followed by a switch on the flag)
+        env, cur, seen_ = {}, tgt, set()
+        while cur not in seen_:
+            seen_.add(cur)
+            blk = body.blocks[cur]
+            for s_ in blk.stmts:
+                if s_.k == 'assign' and s_.lhs.is_local():
+                    if s_.rv.k == 'use' and s_.rv.ops[0].const_int() is not None:
+                        env[s_.lhs.local] = s_.rv.ops[0].const_int()
+                    elif s_.rv.k == 'use' and s_.rv.ops[0].place is not None and s_.rv.ops[0].place.is_local() and s_.rv.ops[0].place.local in env:
+                        env[s_.lhs.local] = env[s_.rv.ops[0].place.local]
+                    else:
+                        env.pop(s_.lhs.local, None)
+            t_ = blk.term
+            if t_.k == 'goto':
+                cur = t_.target
+            elif t_.k == 'switch' and t_.discr.place is not None and t_.discr.place.is_local() and t_.discr.place.local in env:
+                val = env[t_.discr.place.local]
+                nxt = [tg for v_, tg in t_.targets if v_ == val]
+                cur = nxt[0] if nxt else t_.otherwise
+            else:
+                break
+        return any(cb.cfg.can_reach(cur, x, skip_nodes={swb.idx}) for x in copy_bbs)
     for v, tgt in t.targets:
-        if ret_const(tgt) == 1:
+        if selected(tgt):
             kept.add(inv.get(v, str(v)))
-    other = ret_const(t.otherwise)
-    if other == 1:
+    if selected(t.otherwise):
         kept |= set(var) - {inv.get(v) for v, _ in t.targets}
     res.require(kept == STICKY, 'C08:clear_mac_commands:sticky-set', 'retained answers are %s, expected %s' % (sorted(kept), sorted(STICKY)), short_site(cb, sw[0].idx),
                 'DTABLE(sticky set)', instance='retained answers = {RXParamSetupAns, RXTimingSetupAns, DlChannelAns}')
